@@ -88,15 +88,22 @@ func solveVC(vc *VC, o solveOpts) []*Result {
 	script := vc.script(true) // pass 1: quantified hypotheses dropped (sound weakening)
 	os.WriteFile(file, []byte(script), 0o644)
 	hard := time.Duration(len(obs)*o.timeoutMs+20000) * time.Millisecond
+	if max := time.Duration(12*o.timeoutMs) * time.Millisecond; hard > max {
+		hard = max // a VC that needs this long is a generator problem, not a proof
+	}
 	out, secs := runSolver(solvers[0], file, o.timeoutMs, hard)
 	if !o.keep {
 		defer os.Remove(file)
 	}
 	status := map[string]string{}
+	var errLines []string
 	lines := strings.Split(out, "\n")
 	for i := 0; i < len(lines); i++ {
 		l := strings.TrimSpace(lines[i])
 		l = strings.Trim(l, "\"")
+		if l == "@VACUITY" && i+1 < len(lines) && strings.TrimSpace(lines[i+1]) == "unsat" {
+			errLines = append(errLines, "(error \"VACUOUS: the assumptions of this VC are contradictory\")")
+		}
 		if strings.HasPrefix(l, "@OB ") {
 			name := l[4:]
 			if i+1 < len(lines) {
@@ -104,7 +111,6 @@ func solveVC(vc *VC, o solveOpts) []*Result {
 			}
 		}
 	}
-	var errLines []string
 	for _, l := range lines {
 		if strings.Contains(l, "(error") {
 			errLines = append(errLines, l)
